@@ -12,6 +12,7 @@ Obligations (syntactic judgements over the real source, re-derived on every run)
                 feeds an order-insensitive consumer (all / any / set / membership / sorted)
 """
 import ast as pyast
+import re
 
 from pyvc import source
 from pyvc.runner import result
@@ -113,6 +114,11 @@ def task_purity():
             fns.append('python_minifier.%s:%s' % (mod.replace('/', '.'), q))
             n_before = len([o for o in obs if o['status'] == 'refuted'])
             per_function.append((where, len(obs)))
+            # 0. memoisation: a cache on a function outlives the call (the result of a later call depends on earlier ones, keys compare 1 == 1.0 == True)
+            for dec in fnode.decorator_list:
+                dsrc = pyast.unparse(dec)
+                if re.search(r'\b(lru_cache|cache|cached_property|memoize|memoise|memo)\b', dsrc):
+                    obs.append(_ob('C11/write-frame/%s/no-memoisation-across-calls' % where, False, 'decorator @%s at line %d keeps results between calls' % (dsrc, dec.lineno)))
             # 1. global statements
             for n in pyast.walk(fnode):
                 if isinstance(n, pyast.Global):
